@@ -219,7 +219,7 @@ class Report:
         return 1 if self.violations else 0
 
 
-def process_violations(rep, exe, vlines, sym, outdir, seed, make_signature, keep_pred=None, max_unique=6, shrink=True, exec_extra=()):
+def process_violations(rep, exe, vlines, sym, outdir, seed, make_signature, keep_pred=None, max_unique=6, shrink=True, exec_extra=(), tag=""):
     """vlines: list of dicts with keys prop, class, site, file, scen ... Groups by signature, gates, shrinks,
     replays, matches known findings, prints VIOLATION / KNOWN-FINDING lines."""
     known = load_known()
@@ -262,7 +262,7 @@ def process_violations(rep, exe, vlines, sym, outdir, seed, make_signature, keep
             lines, t2 = shrink_dims(lines, test)
             tests = t1 + t2
         safe = re.sub(r"[^A-Za-z0-9_.-]+", "_", sig)[:80]
-        replay = os.path.join(VERIF, "replays", "%s-%s-%s.replay" % (prop, seed, safe))
+        replay = os.path.join(VERIF, "replays", "%s-%s-%s%s.replay" % (prop, seed, safe, tag))
         with open(replay, "w") as f:
             f.write("\n".join(lines) + "\n")
         final = exec_prog(exe, replay, extra=exec_extra)
